@@ -162,7 +162,7 @@ def gen_world(rng, wid):
     models.setdefault(cp + "Pipe", "good")
     models.setdefault(cp + "Net", "good")
     chains.append({"paths": ["conn"], "models": [cp + "Pipe", cp + "Net"]})
-    # a package with two unqualified imports whose models use an imported class (input class of the open finding C26-F5)
+    # a package with two unqualified imports whose models use an imported class (input class of finding C26-F5, fixed by 68cd940)
     il = name("Imp")
     files["imp/%s.mo" % il] = ["good", IMPLIB.format(n=il)]
     models.setdefault(il + ".U", "good")
@@ -325,7 +325,7 @@ def gen_invocation(rng, world, stream):
     inv["paths"] = paths
     kind = stream
     if stream == "main":
-        kind = rng.choice(["models"] * 6 + ["parse"] * 2 + ["usage"] * 3 + ["argparse"] * 2 + ["nofiles"] + ["twins"] * 2 + ["deporder"] * 3 + ["replicas"] * 3 + ["incwd"] * 3)
+        kind = rng.choice(["models"] * 6 + ["parse"] * 2 + ["usage"] * 3 + ["argparse"] * 2 + ["nofiles"] + ["twins"] * 2 + ["deporder"] * 3 + ["replicas"] * 3 + ["incwd"] * 3 + ["importcache"])
     inv["kind"] = kind
     # ---- target and models
     inv["target"] = rng.choice([None, None, "sympy", "casadi", "casadi"])
@@ -415,7 +415,7 @@ def gen_invocation(rng, world, stream):
         inv["models"] = rng.choice([[dep, user], [dep, user], [user, dep], [dep, dep], [dep, user, dep], [dep, dep, user],
                                     [user, user], [dep, user, user]])
     elif kind == "importcache" and world.get("implib"):
-        # several models of a package with two unqualified imports in one flatten-only call (C26-F5)
+        # several models of a package with two unqualified imports in one flatten-only call (C26-F5, fixed)
         il = world["implib"]
         inv["paths"] = [rng.choice(["imp", "imp/%s.mo" % il])]
         inv["target"] = rng.choice([None, None, None, "sympy"])
@@ -937,7 +937,7 @@ def run(ctx):
         for i in range(per_world):
             if ctx.time_left() < 0:
                 break
-            stream = "main" if i % 5 != 4 else ctx.rng.choice(["sympyfail", "sympyfail", "nomatch", "nomatch", "undecodable", "importcache"])
+            stream = "main" if i % 5 != 4 else ctx.rng.choice(["sympyfail", "sympyfail", "nomatch", "nomatch", "undecodable"])
             case = make_case(ctx, ctx.rng, world, stream)
             if case is None:
                 continue
